@@ -10,6 +10,7 @@ fn main() {
     if prop == "CHILD" {
         let code = match std::env::var("NQV_CHILD").as_deref() {
             Ok("loader-text") => nqverif::c08::child_loader_text(),
+            Ok("c19") => nqverif::c19::child(),
             other => {
                 eprintln!("MACHINERY unknown child mode {other:?}");
                 2
@@ -61,6 +62,7 @@ fn main() {
             "C08" => nqverif::c08::replay(case),
             "C11" => nqverif::c11::replay(case),
             "C13" => nqverif::c13::replay(case),
+            "C19" => nqverif::c19::replay(case),
             _ => {
                 println!("{}", serde_json::to_string_pretty(case).unwrap());
                 0
@@ -75,6 +77,7 @@ fn main() {
         "C08" => nqverif::c08::run(&args),
         "C11" => nqverif::c11::run(&args),
         "C13" => nqverif::c13::run(&args),
+        "C19" => nqverif::c19::run(&args),
         _ => {
             eprintln!("MACHINERY unknown property {prop}");
             2
